@@ -7,6 +7,7 @@ import (
 	"os"
 	"os/exec"
 	"path/filepath"
+	"strings"
 
 	"github.com/Trendyol/go-dcp/config"
 	"github.com/Trendyol/go-dcp/metadata"
@@ -113,6 +114,7 @@ func init() {
 			for _, b := range c02Backends {
 				out = append(out, Instance{Scenario: "c02_resume", Params: mustJSON(ResumeParams{Backend: b}), Bound: 0, Shards: 2})
 			}
+			out = append(out, Instance{Scenario: "c02_loadfault", Params: mustJSON(struct{}{}), Bound: 0, Note: "a checkpoint lookup answered with an error other than key-not-found: fail fast or resume exactly, never from zero"})
 			for _, b := range []string{"couchbase", "file", "custom"} {
 				out = append(out, Instance{Scenario: "c02_roundtrip", Params: mustJSON(ResumeParams{Backend: b}), Bound: 0, Shards: 4})
 			}
@@ -408,4 +410,67 @@ func tornFilePure(prop string) func(tier string) *PureResult {
 		res.Notes = []string{"non-overlay binary: real file backend and real sharded map; every byte prefix of three checkpoint files"}
 		return res
 	}
+}
+
+// c02_loadfault: one checkpoint lookup of the session's Load is answered with an error that is NOT "key not
+// found" (temporary failure, internal error, no answer until the timeout). The session either fails fast
+// (C15) or requests every vBucket exactly as persisted - a vBucket with an intact stored checkpoint is never
+// silently requested from zero / from the current end.
+func init() {
+	scenarios["c02_loadfault"] = func(raw json.RawMessage) *vrt.Scenario {
+		return &vrt.Scenario{Name: "c02_loadfault", Main: loadFaultMain, FreeChoices: true, NoTimerAlt: true,
+			Classify: func(r *vrt.Result) []string {
+				if r.Status == vrt.StatusCrash || r.Status == vrt.StatusOK {
+					return nil // failing fast is fine; a session that starts is checked by the scenario itself
+				}
+				return []string{"execution ended with status " + r.Status.String() + "; blocked: " + strings.Join(r.Blocked, " | ")}
+			}}
+	}
+}
+
+func loadFaultMain() {
+	resetGlobals()
+	reset := []string{"earliest", "latest"}[vrt.Choose(2, true, "auto-reset")]
+	subset := 1 + vrt.Choose(7, true, "checkpointed-subset")
+	faultVb := uint16(vrt.Choose(3, true, "faulted-lookup"))
+	kind := vrt.Choose(3, true, "fault")
+	o := EnvOpts{Vbs: 3, CheckpointType: "manual", AutoReset: reset, WrapMeta: true}
+	c := NewCluster(&o)
+	stored := map[uint16]c02Tuple{}
+	for vb := uint16(0); vb < 3; vb++ {
+		c.Vb[vb].High = 20
+		if subset&(1<<vb) == 0 {
+			continue
+		}
+		t := c02Tuple{uuid: 9000 + uint64(vb), seq: 7 + uint64(vb), s0: 5, s1: 12}
+		stored[vb] = t
+		seedCheckpoint(c, srcBucket, "g", vb, t.uuid, t.seq, t.s0, t.s1)
+	}
+	armed := true
+	c.Fault = func(r *gocbcore.SimRequest) gocbcore.SimAnswer {
+		if armed && r.Kind == "lookupin" && r.Key == ckptKey("g", faultVb) {
+			armed = false
+			switch kind {
+			case 0:
+				return gocbcore.SimAnswer{Kind: "err", Err: &gocbcore.KeyValueError{InnerError: gocbcore.ErrTemporaryFailure, StatusCode: 0x86}}
+			case 1:
+				return gocbcore.SimAnswer{Kind: "err", Err: &gocbcore.KeyValueError{InnerError: gocbcore.ErrInternalServerFailure, StatusCode: 0x84}}
+			default:
+				return gocbcore.SimAnswer{Kind: "drop"}
+			}
+		}
+		return gocbcore.SimAnswer{}
+	}
+	desc := fmt.Sprintf("reset=%s subset=%03b lookup of vb%d answered with %s", reset, subset, faultVb, []string{"temporary failure", "internal error", "silence"}[kind])
+	e := NewEnv(c, o)
+	e.Stream.Open()
+	c.WaitIdle()
+	// the session started: every request must name what is persisted
+	for _, r := range c.RequestsOf("openstream") {
+		got := c02Tuple{uuid: r.Args[1], seq: r.Args[2], s0: r.Args[4], s1: r.Args[5]}
+		if want, ok := stored[r.Vb]; ok && got != want {
+			vrt.Failf("%s: the session started and vb%d was requested from %+v, its persisted checkpoint is %+v", desc, r.Vb, got, want)
+		}
+	}
+	vrt.SetOutcome(desc + " started")
 }
